@@ -8,7 +8,7 @@ from an import P, F, BITS, canon, short
 from terms import show
 
 CHUNKERS = ("chunks_exact_mut", "rchunks_exact_mut")
-READS = ("len", "deref", "deref_mut", "index", "index_mut", "as_mut", "as_ref", "as_mut_bitslice", "as_bitslice")
+READS = ("len", "is_empty", "deref", "deref_mut", "index", "index_mut", "as_mut", "as_ref", "as_mut_bitslice", "as_bitslice")
 
 
 def _loop_parts(cfg, b, policy=None):
@@ -79,11 +79,43 @@ def symbol_loop(chk, cfg, b, rule, what, obj, symop, symtrait, paths_filter=None
     return ok and oksrc
 
 
+def _facts_of(p, obj):
+    """canonical comparison facts of a path, with `is_empty(obj)` read as bitlen(obj) == 0 / >= 1"""
+    out = []
+    blen = {(("bitlen", obj),): 1}
+    for g in p.guards:
+        if g[0] == "cmp":
+            out.append((g[1], g[2]))
+        elif g[0] == "bool" and an.is_call(g[1], re.compile(r"::is_empty$"), (obj,)):
+            out.append((nf.pkey(blen), "Eq") if g[2] else (nf.pkey(nf.padd(blen, {(): 1}, -1)), "Ge"))
+    return out
+
+
+def _harmless_shortcut(p, obj):
+    eff = [short(k) for k, a, r, ev in an.calls_on(p, obj) if short(k) not in READS + ("from_bitslice", "load_le", "to_bitvec", "hash", "eq", "is_empty")]
+    facts = _facts_of(p, obj)
+    if p.stores or [x for x in p.calls if short(x[0]) in ("next", "into_iter")]:
+        return False
+    if not eff:
+        # nothing done: fine when the content is at most one symbol wide
+        d = nf.padd({(BITS,): 1}, {(("bitlen", obj),): 1}, -1)      # BITS - bitlen >= 0
+        return nf.entails(facts, d)
+    if eff == ["reverse"]:
+        # all bits reversed, no per-symbol pass: fine when a symbol is one bit
+        d = nf.padd({(): 1}, {(BITS,): 1}, -1)                       # 1 - BITS >= 0
+        return nf.entails(facts, d)
+    return False
+
+
 def reverse_loop(chk, cfg, b, rule, what, obj, paths_filter=None):
     """Then(reverse(obj), ForChunks(BITS, c -> reverse(c)))"""
     paths, conts, rets, other = _loop_parts(cfg, b)
     if paths_filter:
         conts, rets = [p for p in conts if paths_filter(p)], [p for p in rets if paths_filter(p)]
+    # shortcuts before the loop are part of the same shape when they cannot change the result: returning untouched content that
+    # holds at most one symbol (bitlen <= BITS, or empty), or reversing all bits and skipping the per-symbol pass for a 1-bit codec
+    if len(rets) > 1 and len(conts) == 1 and not other:
+        rets = [p for p in rets if not _harmless_shortcut(p, obj)]
     if other or len(conts) != 1 or len(rets) != 1:
         chk.cannot(rule, what, "expected one loop with a single straight-line body; found %d iteration paths, %d exits" % (len(conts), len(rets)), b["span"])
         return False
